@@ -397,6 +397,7 @@ func runC14(seed int64, count int) {
 	for round := 0; round < 3; round++ {
 		c14Contend(rng, round)
 	}
+	c14Deadline(0)
 	for cs := 0; cs < count; cs++ {
 		spec, mk := genMsg(rng)
 		emit("#case c14-%d", cs)
